@@ -74,6 +74,7 @@ def main():
         run.case(nt, sample=dict(windows=c["win"], fs=c["fs"], exact_interior_density=exp) if nt and len(run.samples) < 2 else None)
 
     general(run, h, rng, proc)
+    long_windows(run, h, rng, proc)
     preprocessing(run, h, rng)
     psd_chain(run, h, rng)
     return run.finish(
@@ -81,6 +82,45 @@ def main():
              "identity, 4^k scaling, Welch average and diffuse-field relation on seeded noise (n even/odd, padded, tapered); analytic PSD "
              "preprocessing cases; non-trivial = non-zero interior density with two windows",
         exhaustive=run.quick)
+
+
+def long_windows(run, h, rng, proc):
+    """Windows longer than the 32 768-point minimum with DEFAULT fft settings: whatever FFT length is chosen must not be
+    shorter than the window (zero padding, never truncation), and Parseval holds for it."""
+    ts = h.TimeSeries
+    for n in ((40000, 33001) if run.quick else (40000, 33001, 46340, 46341, 70001, 92000)):
+        fs, width = 100.0, float(rng.choice([0.0, 0.2]))
+        dt = 1.0 / fs
+        w = rng.normal(size=n) + 0.3
+        rec = h.SeismicRecording3C(ts(w, dt), ts(w * 0.5, dt), ts(w[::-1], dt))
+        out = proc([rec], psd_settings(h, width, None))
+        freq, got = out["ns"].frequency, out["ns"].amplitude
+        nfft = 2 * (len(freq) - 1)
+        rep = dict(kind="psd-long", n=n, width=width, nfft=nfft)
+        if nfft < n:
+            run.violation("psd:fft-shorter-than-window", f"a {n}-sample window with default fft settings is transformed with n={nfft}: the window is cropped", rep)
+            continue
+        taper = tukey(n, alpha=width)
+        y = np.zeros(nfft)
+        y[:n] = w * taper
+        rhs = (np.sum(y ** 2) - y.sum() ** 2 / nfft - (y * (-1.0) ** np.arange(nfft)).sum() ** 2 / nfft) / (n * np.mean(taper ** 2))
+        lhs = np.sum(got[1:nfft // 2]) * fs / nfft
+        if not abs(lhs - rhs) <= 1e-9 * abs(rhs):
+            run.violation("psd:parseval", f"n={n} default fft settings (nfft={nfft}) taper={width}: interior bins carry {lhs}, the tapered signal's mean square "
+                          f"outside the two excluded bins is {rhs}", rep)
+        # the analytic derivative keeps every sample of a long window
+        k = 37
+        tt = np.arange(n) * dt
+        f0 = k * fs / 65536 if n <= 65536 else k * fs / 131072
+        x = np.sin(2 * np.pi * f0 * tt)
+        base = dict(orient_to_degrees_from_north=None, filter_corner_frequencies_in_hz=[None, None], window_length_in_seconds=None,
+                    detrend=None, window_type_and_width=["tukey", 0.0])
+        with warnings.catch_warnings():
+            warnings.simplefilter("ignore")
+            o2 = h.preprocess([h.SeismicRecording3C(ts(x, dt), ts(x, dt), ts(x, dt))], h.PsdPreProcessingSettings(differentiate=True, **base))[0]
+        if o2.ns.n_samples != n:
+            run.violation("psd-pre:differentiate:length", f"differentiating a {n}-sample record returns {o2.ns.n_samples} samples", rep)
+        run.case(("long", n))
 
 
 def general(run, h, rng, proc):
